@@ -23,11 +23,12 @@ pub fn nest(kind: i64, d: usize, catch_each: bool) -> String {
 
 pub const PROCS: &str = "proc down {n} {if {$n <= 0} {rec deep; return ok}; down [expr {$n - 1}]}\nproc ping {n} {if {$n <= 0} {rec deep; return ok}; pong [expr {$n - 1}]}\nproc pong {n} {ping $n}";
 
-pub const HISTORIES: [&str; 4] = [
+pub const HISTORIES: [&str; 5] = [
     "",
     "\ncatch {if 1 \"set x \\{\"}\ncatch {if 1 {if 1 \"set x \\{\"}}\ncatch {foreach i 1 {expr {[}}}\nset h ok",
     "\nproc inf {} {inf}\ncatch {inf}\ncatch {if 1 {inf}}\nset h ok",
     "\nproc wa {a} {}\ncatch {if 1 {wa}}\ncatch {wa 1 2}\nset h ok",
+    "\nproc e1 {} {e2}\nproc e2 {} {error deep}\nunset -nocomplain errorCode\nset errorCode(x) 1\ncatch {e1}\ncatch {if 1 {e1}}\nunset errorCode\nset errorCode NONE\nset h ok",
 ];
 
 pub fn gen(tier: &str, seed: u64) -> Gen {
@@ -36,7 +37,7 @@ pub fn gen(tier: &str, seed: u64) -> Gen {
     let thorough = tier == "thorough";
     let limits: Vec<i64> = if thorough { (1..=200).collect() } else { vec![1, 2, 3, 5, 8, 13, 21, 34, 50, 200] };
     for &n in &limits {
-        for kind in 0..6i64 {
+        for kind in 0..7i64 {
             // the quick tier visits the largest limit with two constructs only (the model run is
             // quadratic in the depth)
             if !thorough && n > 50 && kind != 1 && kind != 4 {
@@ -50,18 +51,27 @@ pub fn gen(tier: &str, seed: u64) -> Gen {
                     if target < 1 {
                         continue;
                     }
-                    let c = tl(vec![ti(n), ti(kind), ti(target), tb(catch_each), ti(rng.below(3) as i64 + 1), ti(rng.below(4) as i64)]);
+                    let c = tl(vec![ti(n), ti(kind), ti(target), tb(catch_each), ti(rng.below(3) as i64 + 1), ti(rng.below(5) as i64)]);
                     cases.push(c);
                 }
             }
         }
     }
     let n = cases.len();
-    (cases, vec![(format!("{} limits x 6 constructs x depths N-1,N,N+1,10N x catch-at-each-level or not, repeated 1-3 times, after one of 4 histories of caught failures (none, unparsable bodies, runaway recursion, wrong argument counts)", limits.len()), n, thorough)])
+    (cases, vec![(format!("{} limits x 7 constructs (the seventh has an innermost body that does not parse) x depths N-1,N,N+1,10N x catch-at-each-level or not, repeated 1-3 times, after one of 5 histories of caught failures (none, unparsable bodies, runaway recursion, wrong argument counts, errors raised while errorCode is an array)", limits.len()), n, thorough)])
 }
 
 /// script needing exactly `target` nested evaluation levels (or the closest the construct allows)
 pub fn script_for(kind: i64, target: i64, catch_each: bool) -> (String, i64) {
+    if kind == 6 {
+        // an `if` nest whose innermost body does not parse
+        let d = (target - 1).max(0);
+        let mut s = "set x \"abc".to_string();
+        for _ in 0..d {
+            s = format!("if 1 {{{}}}", s);
+        }
+        return (s, 1 + d);
+    }
     match kind {
         0..=3 => {
             let per: i64 = if catch_each && kind != 0 { 2 } else { 1 };
